@@ -107,9 +107,6 @@ func genRemHistory(g *Gen, idx int) {
 			for _, x := range t.live {
 				t.op("rembegin", "rembegin %s", x)
 				t.op("remstep", "remstep")
-				if r2.Intn(3) == 0 {
-					crashInLastStep(g, t.op)
-				}
 				t.op("remstep-extra", "remstep")
 				t.op("residue-after", "residue %s", x)
 			}
